@@ -114,11 +114,12 @@ pub fn run_check(id: &str, tier: Tier) -> i32 {
             ctx.rule("same histories with every message type 0..255/absent and server-id kinds; oracle: frame condition on the lease table + header echo; non-trivial = an unanswered message arriving while the sender already has a row");
             props_dhcp::run_hist_func(&ctx, id);
             if ctx.violations.lock().unwrap().is_empty() {
-                ctx.rule("policy-options: generated configurations (policy trees whose apply-* options include server-id as an address or null) x parameter request lists (any codes, incl. 54) through the real loader; DISCOVER then REQUEST through handle_pkt: both replies carry a server identifier naming this server and the right message type, echo xid / hardware address (5, 6, 8 or 16 octets, with type-1 and opaque client identifiers) / relay address / flags, and change no row but the one they assign; non-trivial = an applied policy names server-id and the client asks for it");
+                ctx.rule("policy-options: generated configurations (policy trees whose apply-* options include server-id as an address or null) x parameter request lists (any codes, incl. 54) through the real loader; DISCOVER then REQUEST through handle_pkt: both replies carry a server identifier naming this server and the right message type, echo xid / hardware address (5, 6, 8 or 16 octets, with type-1 and opaque client identifiers) / relay address / flags, and change no row but the one they assign; a client for which the documented-set model of C02 finds no pool gets no reply; non-trivial = an applied policy names server-id and the client asks for it");
                 props_policy::run_reply_invariants(&ctx, "C13");
             }
         }
         "C18" => {
+            ctx.rule("file-held-by-another-connection: a second connection holds a write reservation (BEGIN IMMEDIATE) or sits in an open read transaction on the lease file while the pool allocates for a new client and renews an old one; afterwards (holder gone, file reopened) every allocation the pool reported as made, before or while the file was held, is a row of the file");
             ctx.rule("large-store: lease files in the current layout holding 1, 999, 1000, 1001, 1100, 2500 rows (thorough: up to 65537), 100/90/50/0 % of them expired hours to months ago, written by the harness's own connection into a schema created by the real code; opened the way the server opens it, twice; rows read by the harness before and after must be identical and the listing must show them all; non-trivial = more than one row");
             ctx.rule("reopen: twin histories (file-backed, reopened at generated points) vs uninterrupted in-memory twin; oldschema: generated v0/v1/newer databases; non-trivial = reopen with live leases of >=2 clients / a database with rows");
             props_dhcp::run_c18_func(&ctx);
@@ -137,12 +138,12 @@ pub fn run_check(id: &str, tier: Tier) -> i32 {
             ctx.rule("upgraded-db: the same walk over a lease file written in the layout of an older release (no version row / version 0 / version 1 whose option blobs are NULL), 1..8 pre-existing rows owned by world clients or strangers, active and expired, followed by a generated history; non-trivial = rows written before the option column existed are still stored at the end");
             props_dhcp::run_c20_func(&ctx);
             if wire_ok && ctx.violations.lock().unwrap().is_empty() {
-                ctx.rule("wire-listing: 2..40 (thorough 250) DHCP clients whose client-identifier and host-name options are drawn from byte strings 0..255 with quotes, backslashes, C0 controls, DEL, invalid UTF-8, multi-byte octets, and strings of whole characters (U+2028/2029, NEL, NBSP, BOM, U+FFFD, noncharacters, first and last code point of each encoded length, bidi override, combining accent) against the real erbium; GET /api/v1/leases.json must parse with a strict JSON parser and be in bijection (address, client id bytes, start, expiry) with the rows read from the same SQLite file; gauges from /metrics equal the harness's count before any generated lease, when first scraped over TCP by a client whose rule grants http-metrics and nothing else, and after ageing every n-th row; eight times a burst of 30 back-to-back DISCOVERs from new clients is sent and the gauges are scraped while the server is still working through it: the scrape, taken between two listings, must report a count between theirs");
+                ctx.rule("wire-listing: 2..40 (thorough 250) DHCP clients whose client-identifier and host-name options are drawn from byte strings 0..255 with quotes, backslashes, C0 controls, DEL, invalid UTF-8, multi-byte octets, and strings of whole characters (U+2028/2029, NEL, NBSP, BOM, U+FFFD, noncharacters, first and last code point of each encoded length, bidi override, combining accent), and of text that reads like an escape, an entity or the end of a value (backslash-u0000, backslash-n, a quote and a brace, ...; one client per such text in a first, fixed case) against the real erbium; GET /api/v1/leases.json must parse with a strict JSON parser and be in bijection (address, client id bytes, start, expiry) with the rows read from the same SQLite file; gauges from /metrics equal the harness's count before any generated lease, when first scraped over TCP by a client whose rule grants http-metrics and nothing else, and after ageing every n-th row; eight times a burst of 30 back-to-back DISCOVERs from new clients is sent and the gauges are scraped while the server is still working through it: the scrape, taken between two listings, must report a count between theirs");
                 props_netwire::run_c20_wire(&ctx);
             }
         }
         "C12" => {
-            ctx.rule("message: generated DHCP messages (all header values, hlen 0..16, option multisets with repeated/zero-length/1500-octet values; one message in four with 25..100 options under distinct codes plus one or two values longer than one instance) -> parse -> serialise -> parse and an RFC 2131/3396 decoder; frame: generated payloads 0..1472 x addresses x MACs through Fragment::new_udp4, decoded by an independent Ethernet/IPv4/UDP decoder with checksum verification; broadcast-flag: all 65536 flag values; non-trivial = long/repeated/zero-length option, odd payload, every flag value");
+            ctx.rule("message: generated DHCP messages (all header values, hlen 0..16, option multisets with repeated/zero-length/1500-octet values, repeats with equal contents and instances equal to everything sent for their code before; one message in four with 25..100 options under distinct codes plus one or two values longer than one instance) -> parse -> serialise -> parse and an RFC 2131/3396 decoder; frame: generated payloads 0..1472 x addresses x MACs through Fragment::new_udp4, decoded by an independent Ethernet/IPv4/UDP decoder with checksum verification; broadcast-flag: all 65536 flag values; non-trivial = long/repeated/zero-length option, odd payload, every flag value");
             props_codec::run_c12_func(&ctx);
             if wire_ok && ctx.violations.lock().unwrap().is_empty() {
                 ctx.rule("wire-dhcp-exchange: DISCOVER, REQUEST and two renewals with ciaddr filled in (the flag value as sampled and with bit 15 inverted) against the real erbium-dhcp over a veth pair; captured frames decoded by the independent Ethernet/IPv4/UDP decoder: IPv4 destination is 255.255.255.255 iff bit 15, else yiaddr; Ethernet destination = chaddr; reply echoes xid/flags");
@@ -151,12 +152,12 @@ pub fn run_check(id: &str, tier: Tier) -> i32 {
             }
         }
         "C14" => {
-            ctx.rule("structured: first an enumerated sweep (a name first written at every offset 0x3fe8..0x4003, as owner and inside rdata, then reused whole, extended and by each suffix); then generated messages (1..2000 records, names sharing suffixes at every depth incl. ladders in which the k-th name extends the (k-1)-th by one label up to 126 levels (pointer chains as long as the name), all rdata kinds, EDNS options) -> erbium DNSPkt -> serialise -> crate parser (equality) and independent RFC 1035 decoder (field-by-field at RFC bit positions, pointer audit); bytes: harness-encoded messages under three compression modes with 0..2 byte edits, accepted inputs re-encoded and compared; non-trivial = pointer inside rdata, or > 16 KiB, or EDNS options / accepted multi-record input");
+            ctx.rule("structured: first two enumerated sweeps (names of 120..127 labels whose every suffix occurs earlier and whose longest is used once more: pointer chains of up to 127 hops; and a name first written at every offset 0x3fe8..0x4003, as owner and inside rdata, then reused whole, extended and by each suffix); then generated messages (1..2000 records, names sharing suffixes at every depth incl. ladders in which the k-th name extends the (k-1)-th by one label up to 126 levels (pointer chains as long as the name), all rdata kinds, EDNS options) -> erbium DNSPkt -> serialise -> crate parser (equality) and independent RFC 1035 decoder (field-by-field at RFC bit positions, pointer audit); bytes: harness-encoded messages under three compression modes with 0..2 byte edits, accepted inputs re-encoded and compared; non-trivial = pointer inside rdata, or > 16 KiB, or EDNS options / accepted multi-record input");
             props_codec::run_c14_func(&ctx);
             fuzzdrv::run_for(&ctx, "C14");
         }
         "C03" => {
-            ctx.rule("relay (repeated queries also in the other letter case, over the other transport, and in another class - the upstream must then have been asked that question): generated client queries (names of 1..7 labels with arbitrary octets and mixed case, any type but ANY, EDNS sizes/DO/NSID/cookie/unknown options, CD/AD, UDP and TCP, IPv4-mapped and IPv6 sources) x generated upstream replies (any rcode incl. extended, 0..24 records over three sections, every rdata kind erbium re-encodes plus opaque types, compression off/owners/all) through the real erbium-dns with a scripted upstream; a quarter asked again after 0..2.1 s (cache); oracle: independent RFC 1035 decoder on both sides: id, QR, question, rcode, the three sections record by record, TTL equal / aged; non-trivial = upstream reply with authority or additional records, non-zero rcode or name-bearing rdata");
+            ctx.rule("relay (repeated queries also in the other letter case, over the other transport, and in another class - the upstream must then have been asked that question; one upstream in four echoes the question with its name in lower case, and the client must still get its own question back): generated client queries (names of 1..7 labels with arbitrary octets and mixed case, any type but ANY, EDNS sizes/DO/NSID/cookie/unknown options, CD/AD, UDP and TCP, IPv4-mapped and IPv6 sources) x generated upstream replies (any rcode incl. extended, 0..24 records over three sections, every rdata kind erbium re-encodes plus opaque types, compression off/owners/all) through the real erbium-dns with a scripted upstream; a quarter asked again after 0..2.1 s (cache); oracle: independent RFC 1035 decoder on both sides: id, QR, question, rcode, the three sections record by record, TTL equal / aged; non-trivial = upstream reply with authority or additional records, non-zero rcode or name-bearing rdata");
             if !wire_ok {
                 ctx.set_inconclusive("C03 is decided on the wire only and the wire rig is unavailable");
             } else {
@@ -165,6 +166,7 @@ pub fn run_check(id: &str, tier: Tier) -> i32 {
         }
         "C07" => {
             ctx.rule("concurrent: (1) every listener family (127.0.0.1, 0.0.0.0, ::1, ::) x UDP to several local destination addresses / TCP in one write / TCP with the length prefix split over segments; (2) enumerated drop patterns over the upstream transmissions (quick: all with <= 2 losses + all lost; thorough: all 32), run concurrently; (3) generated sets of up to 48 (thorough 256) queries in flight on a fresh server each, per-question upstream script: delay 0..1500 ms (arbitrary reordering), 0..2 duplicates, wrong id first (forces the TCP retry), TC (forces TCP), losses; oracle: exactly one response per query within the server's own back-off bound (late duplicates collected for 1.5 s), carrying its own question and own answer, SERVFAIL iff the upstream never answered, <= 5 transmissions, response source == query destination, complete TCP frames, no task panic; non-trivial = a query whose upstream exchange was disturbed or whose TCP request came in several segments; (late reply) one TCP-path query whose upstream reply comes 11.5 s late (SERVFAIL or the answer), then thirteen more TCP-path queries, each of which must get its own answer; a SERVFAIL for a query the healthy upstream was never asked is a violation of its own");
+            ctx.rule("empty-ahead: one or three empty UDP datagrams and then a query, back to back from one socket to a fresh server (every listener family), then silence until the answer comes or 12 s pass; four rounds per server; every query must get its own answer");
             ctx.rule("slow-writer: a TCP client writes the first 0/1/2/3/20 octets of its framed query and pauses; three TCP clients on their own connections and a UDP client then send complete queries and must each get their own answer while the first is still pending; it completes only then (or after 10 s) and must get its own answer too");
             ctx.assume("tokio's task interleaving inside the server is exercised by real concurrency and repetition, not enumerated");
             if !wire_ok {
@@ -174,7 +176,7 @@ pub fn run_check(id: &str, tier: Tier) -> i32 {
             }
         }
         "C15" => {
-            ctx.rule("routes: generated route tables (1..6 routes, 0..4 suffixes each over a 7-label alphabet so nesting and siblings are common, \"\" default, forward / forge-nxdomain; one scripted upstream per forward route; suffixes optionally written in upper case) x 4..30 names (suffix + 0..3 extra labels, class IN and (a third) CH/HS/CSNET/NONE, random letter case, near misses at label boundaries, the first two labels written as one label with a dot inside (asked in a second round, after the name it reads like was answered and cached), reversed labels, the root, unrelated names, RD on/off); each table is run as generated and with routes and suffixes permuted; oracle: reference longest-suffix model (whole labels, ASCII case-insensitive): forge => NXDOMAIN and no upstream asked, forward+RD => own answer from exactly that route's upstream, forward without RD => REFUSED and nobody asked, no route => SERVFAIL; outcomes equal under permutation; non-trivial = a name matching suffixes of >= 2 routes, or differing in case from the configured suffix");
+            ctx.rule("routes: generated route tables (1..6 routes, 0..4 suffixes each over a 7-label alphabet so nesting and siblings are common, \"\" default, forward / forge-nxdomain, the keys of a route in either order, forge routes with a left-over dns-servers key before or after their type; one scripted upstream per forward route; suffixes optionally written in upper case) x 4..30 names (suffix + 0..3 extra labels, class IN and (a third) CH/HS/CSNET/NONE, random letter case, near misses at label boundaries, the first two labels written as one label with a dot inside (asked in a second round, after the name it reads like was answered and cached), reversed labels, the root, unrelated names, RD on/off); each table is run as generated and with routes and suffixes permuted; oracle: reference longest-suffix model (whole labels, ASCII case-insensitive): forge => NXDOMAIN and no upstream asked, forward+RD => own answer from exactly that route's upstream, forward without RD => REFUSED and nobody asked, no route => SERVFAIL; outcomes equal under permutation; non-trivial = a name matching suffixes of >= 2 routes, or differing in case from the configured suffix");
             if !wire_ok {
                 ctx.set_inconclusive("C15 is decided on the wire only and the wire rig is unavailable");
             } else {
@@ -202,14 +204,18 @@ pub fn run_check(id: &str, tier: Tier) -> i32 {
                 ctx.rule("wire-dhcp: batches of 16..64 hostile DHCP payloads (seed messages, boundary-family members, every hlen 0..255, every message type, option-length families), preceded by the complete family of text/list options of 256..1180 octets split over several instances (RFC 3396; 1848 messages: 11 options x 8 lengths x 21 fills - ASCII, invalid UTF-8, 2/3/4-octet characters at every alignment - in three instance layouts), broadcast to the real erbium-dhcp over a veth pair; after every batch: no new panic line in the server log, process alive, a well-formed DISCOVER answered");
                 props_netwire::run_c05_dhcp_wire(&ctx);
             }
+            if wire_ok && ctx.violations.lock().unwrap().is_empty() {
+                ctx.rule("wire-ra: ICMPv6 messages (seed solicitations and advertisements, every option type x length 0..4; thorough: the complete boundary family of the seeds) in frames to all-routers from a link-local, the unspecified, a global, a multicast and the loopback source address, hop limit 255 and 64, delivered to the real erbium (router advertisements configured on the server-side interface of the veth rig) in batches of 48; after every batch: no new panic line in the server log, process alive, an ordinary solicitation answered with an advertisement");
+                props_netwire::run_c05_ra_wire(&ctx);
+            }
         }
         "C02" => {
-            ctx.rule("address-set: generated configurations (0..2 top-level addresses /22../30 with and without host bits; dhcp-policies trees depth<=3 width<=3 with match-subnet/match-hardware-address and apply-address/apply-subnet/apply-range blocks cut from one /22 so that parents, children and siblings overlap; receiving address on first/last/middle host, inside a child's block, or on another subnet) rendered to YAML and loaded through the real loader; oracle: documented set D from an independent model of erbium.conf(5); pools <= 300 addresses are drained with fresh client identifiers (leases == D exactly, each once), larger pools are probed with option 50 at every boundary; non-trivial = D non-empty and different from a plain host range");
+            ctx.rule("address-set: generated configurations (0..2 top-level addresses /22../30 with and without host bits; dhcp-policies trees depth<=3 width<=3 with match-subnet/match-hardware-address and apply-address/apply-subnet/apply-range blocks cut from one /22 so that parents, children and siblings overlap; receiving address on first/last/middle host, inside a child's block, or on another subnet; the interface's router anywhere or a host of the same universe) rendered to YAML and loaded through the real loader; oracle: documented set D from an independent model of erbium.conf(5); pools <= 300 addresses are drained with fresh client identifiers (leases == D exactly, each once), larger pools are probed with option 50 at every boundary; non-trivial = D non-empty and different from a plain host range");
             ctx.assume("unconstrained (manual silent): the server's own address and the network/broadcast addresses when an explicit apply-range/apply-address/apply-subnet names them; overlap between sibling policies");
             props_policy::run_c02(&ctx);
         }
         "C11" => {
-            ctx.rule("options: generated policy trees (conditions: match-subnet, match-hardware-address, match-host-name/class-id/user-class with value or null; apply-<option> with value or null over 20 options with unambiguous RFC 2132 encodings, plus lease-time, server-id, renewal-time, rebind-time and classless routes, whose own octets are not judged; top-level dns-servers with $self4/IPv6 entries, dns-search, captive-portal; interface MTU and router) x requests (three in four preceded by another client's request on the same address seen with other interface facts, which must change nothing) (receiving address, chaddr, option values, parameter request list incl. empty and absent); oracle: independent model of the manual's semantics, options(reply) == model as a map code -> bytes (domain search compared as a decoded list); non-trivial = two siblings match, an inner policy or a policy overrides an outer/default value, null unsets, or an applied option is withheld by the parameter list");
+            ctx.rule("options: generated policy trees (conditions: match-subnet, match-hardware-address, match-host-name/class-id/user-class with value or null; apply-<option> with value or null over 20 options with unambiguous RFC 2132 encodings, plus ipv6-preferred, and lease-time, server-id, renewal-time, rebind-time and classless routes, whose own octets are not judged; a quarter of the REQUESTs name another address of this server in option 54; top-level dns-servers with $self4/IPv6 entries, dns-search, captive-portal; interface MTU and router) x requests (three in four preceded by another client's request on the same address seen with other interface facts, which must change nothing) (receiving address, chaddr, option values, parameter request list incl. empty and absent); oracle: independent model of the manual's semantics, options(reply) == model as a map code -> bytes (domain search compared as a decoded list); non-trivial = two siblings match, an inner policy or a policy overrides an outer/default value, null unsets, or an applied option is withheld by the parameter list");
             ctx.assume("unconstrained (manual silent): netmask/broadcast when two different matching subnets are in play; empty list values; options 53/54/51 are protocol fields");
             props_policy::run_c11(&ctx);
         }
@@ -222,12 +228,12 @@ pub fn run_check(id: &str, tier: Tier) -> i32 {
                 props_dnswire2::run_c08_wire(&ctx);
             }
             if wire_ok && ctx.violations.lock().unwrap().is_empty() {
-                ctx.rule("wire-http-acl: generated ACL lists over the client addresses of the veth rig (10.55.0.0/24 sub-prefixes, fd55::/64 sub-prefixes, ::ffff:10.55.0.x/96+n, host bits, match-unix) on the real erbium; GET /, /metrics and /api/v1/leases.json from TCP/IPv4 (seen as mapped), TCP/IPv6 and the unix socket with bound and unbound clients, and HEAD/POST/PUT/DELETE/OPTIONS to every page the model refuses (never 200); oracle: status 200 <=> first-match model grants http / http-metrics / http-leases, else 403; every request answered");
+                ctx.rule("wire-http-acl: generated ACL lists over the client addresses of the veth rig (10.55.0.0/24 sub-prefixes, fd55::/64 sub-prefixes, ::ffff:10.55.0.x/96+n, host bits, match-unix) on the real erbium; GET /, /metrics and /api/v1/leases.json from TCP/IPv4 (seen as mapped), TCP/IPv6 and the unix socket with bound and unbound clients, granted and refused pages on one keep-alive connection, ten other spellings of a refused page's path, and HEAD/POST/PUT/DELETE/OPTIONS to every page the model refuses (never 200); oracle: status 200 <=> first-match model grants http / http-metrics / http-leases, else 403; every request answered");
                 props_netwire::run_c08_http(&ctx);
             }
         }
         "C17" => {
-            ctx.rule("build: generated interface sections (every field absent/null/value; lifetimes {0,1,8,600,1800,9000,9001,65535,65536,4294967,4294968,2^31,2^32-1,2^32,random} written as integers, '<n>s', mixed units or digit strings; 0..6 prefixes of any length with and without host bits, addresses from the documentation range, random, and one of each special-purpose class (unspecified, loopback, link-local, site-local, ULA, multicast, v4-mapped, 6to4, Teredo); RDNSS 0..8 incl. $self6; DNSSL lists of 0..5 (1 in 25: 7..10 names of ~250 octets, i.e. more than one option can hold) domains of 1..8 labels of 1..63 octets, plus labels of 64..400 octets and names above 255 octets as unrepresentable values; PREF64 lengths {32,40,48,56,64,96}; URLs 0..240 octets) plus top-level defaults, rendered to YAML, loaded through the real loader, built by the pure builder, serialised, and decoded by a decoder written from RFC 4861/8106/8781/8910; oracle: decoded == expected(config), reserved fields zero, unrepresentable values rejected or clamped; non-trivial = >= 3 option kinds in the message or an unrepresentable value");
+            ctx.rule("build: generated interface sections (every field absent/null/value; lifetimes {0,1,8,600,1800,9000,9001,65535,65536,4294967,4294968,2^31,2^32-1,2^32,random} written as integers, '<n>s', mixed units or digit strings; max-router-advertisement-interval set on a third of the interfaces; 0..6 prefixes of any length with and without host bits, addresses from the documentation range, random, and one of each special-purpose class (unspecified, loopback, link-local, site-local, ULA, multicast, v4-mapped, 6to4, Teredo); RDNSS 0..8 incl. $self6; DNSSL lists of 0..5 (1 in 25: 7..10 names of ~250 octets, i.e. more than one option can hold) domains of 1..8 labels of 1..63 octets, plus labels of 64..400 octets and names above 255 octets as unrepresentable values; PREF64 lengths {32,40,48,56,64,96}; URLs 0..240 octets) plus top-level defaults, rendered to YAML, loaded through the real loader, built by the pure builder, serialised, and decoded by a decoder written from RFC 4861/8106/8781/8910; oracle: decoded == expected(config), reserved fields zero, unrepresentable values rejected or clamped; non-trivial = >= 3 option kinds in the message or an unrepresentable value");
             ctx.assume("the mtu / lifetime tri-state resolution against interface and routing table lives in the impure wrapper and is decided by the wire tier; the hook takes the resolved values as parameters");
             props_ra::run_c17_func(&ctx);
             if wire_ok && ctx.violations.lock().unwrap().is_empty() {
@@ -236,7 +242,7 @@ pub fn run_check(id: &str, tier: Tier) -> i32 {
             }
         }
         "C19" => {
-            ctx.rule("load-and-serve: (1) the manual's examples, the shipped example file (as is and uncommented) and a full-grammar document must load; (2) complete single-substitution family over them (every node replaced by each wrong type / empty collection / boundary number / hostile string incl. long strings of 2/3/4-octet characters at four alignments, every key replaced or deleted, every list also with its first element repeated 31..1000 times); (3) generated double substitutions; (4) generated byte/token mutations of the texts; every document goes through the real loader, every accepted configuration is used to serve DHCP (DISCOVER/REQUEST on the first host of every configured prefix, with every configured hardware address, all options requested), to build and serialise an RA per interface, and to decide ACLs for IPv4/IPv6/mapped/unix clients; oracle: Ok or Err with text, no panic; non-trivial = rejected by a typed section parser or accepted and served");
+            ctx.rule("load-and-serve: (1) the manual's examples, the shipped example file (as is and uncommented) and a full-grammar document must load; (2) complete single-substitution family over them (every node replaced by each wrong type / empty collection / boundary number / hostile string incl. long strings of 2/3/4-octet characters at four alignments and strings of 2030..2048 / 4086..4095 octets, every key replaced or deleted, every list also with its first element repeated 31..1000 times); (3) generated double substitutions; (4) generated byte/token mutations of the texts; every document goes through the real loader, every accepted configuration is used to serve DHCP (DISCOVER/REQUEST on the first host of every configured prefix, with every configured hardware address, all options requested), to build and serialise an RA per interface, and to decide ACLs for IPv4/IPv6/mapped/unix clients; oracle: Ok or Err with text, no panic; non-trivial = rejected by a typed section parser or accepted and served");
             ctx.assume("yaml-rust recursion depth: documents nesting deeper than 64 and documents using anchors/aliases are not executed (counted)");
             props_conf::run_c19(&ctx);
             fuzzdrv::run_for(&ctx, "C19");
@@ -249,7 +255,7 @@ pub fn run_check(id: &str, tier: Tier) -> i32 {
             ctx.rule("cache-model: generated query sequences (keys with near misses: label/type/DO/CD/case/printed-alike framing (a dot inside a label against a label boundary, an octet against its backslash-decimal spelling); lookups are unconstrained while another spelling of the name in letter case is resolved; replies with 0..12 records (address records, SOA in the authority section with MINIMUM on either side of the TTLs, NS, opaque), TTLs {0,1,2,59,600,2^31,2^32-1,random} over three sections, cached error kinds) x clock moves (fixed steps and placements at +-2 s around the entry's smallest TTL in 250 ms steps) x sweeps, driven through the cache's own functions in handle_query order under tokio's paused clock; oracle: reference cache model; non-trivial = near-miss lookup, hit within 1 s of expiry, or hit on a reply with >=2 distinct TTLs in >=2 sections");
             props_dnsfunc::run_c06_func(&ctx);
             if wire_ok && ctx.violations.lock().unwrap().is_empty() {
-                ctx.rule("wire-cache: 40 (thorough 200) names with 1..5 records of TTL 1..4 s over the three sections through the real erbium-dns; right after the first resolution four near-miss queries (other type, DO set, CD set, class CH) must each reach the upstream; the exact query is repeated at +0.4..+5.4 s: answered from cache (upstream counter still) only within minTTL (+1 s clock slack), TTLs aged and never above the original");
+                ctx.rule("wire-cache (then: two clients ask the same question at once while the upstream answers only the first transmission it sees, TTL 1..2 s; the client whose query fails 6..20 s later must not be given that answer): 40 (thorough 200) names with 1..5 records of TTL 1..4 s over the three sections through the real erbium-dns; right after the first resolution four near-miss queries (other type, DO set, CD set, class CH) must each reach the upstream; the exact query is repeated at +0.4..+5.4 s: answered from cache (upstream counter still) only within minTTL (+1 s clock slack), TTLs aged and never above the original");
                 props_dnswire2::run_c06_wire(&ctx);
             }
         }
